@@ -36,7 +36,7 @@ def gen_graph(rng, big=False):
     return ";".join(items), nodes, edges
 
 
-def gen_programs(rng, nodes, edges, nrules=4, big=False, local=0.5):
+def gen_programs(rng, nodes, edges, nrules=4, big=False, local=0.5, safe=False):
     k = max(nodes[1])
     def tgt():
         return "s" if rng.random() < local else str(rng.randint(1, k))
@@ -46,6 +46,13 @@ def gen_programs(rng, nodes, edges, nrules=4, big=False, local=0.5):
         if big:
             ins.append(f"sa.s.{'%02x' % r}")
             progs.append(f"{r}:" + ",".join(ins))
+            continue
+        if safe:
+            # exactly one write (so one program never emits two ops under one key) plus reads; always applicable
+            wr = rng.choice([f"sa.s.{rng.choice(POOL)}", "ca.s", f"sa.{tgt()}.{rng.choice(POOL)}"])
+            reads = [rng.choice([f"rn.{tgt()}", f"ra.{tgt()}", f"he.{rng.choice([20, 21, 30])}"]) for _ in range(rng.choice([0, 1, 2]))]
+            g = (("?" if rng.random() < 0.6 else "!") + f"s={rng.choice(POOL[:4])}|") if rng.random() < 0.3 else ""
+            progs.append(f"{r}:" + ",".join(reads + [g + wr]))
             continue
         for _ in range(rng.choice([1, 1, 2, 3])):
             g = ""
@@ -79,7 +86,7 @@ def gen_programs(rng, nodes, edges, nrules=4, big=False, local=0.5):
     return ";".join(progs)
 
 
-def gen_enq(rng, nodes, nrules=4, big=False):
+def gen_enq(rng, nodes, nrules=4, big=False, safe=False):
     reqs = []
     if big:
         for n in nodes[1]:
@@ -87,16 +94,16 @@ def gen_enq(rng, nodes, nrules=4, big=False):
                 reqs.append((r, 1, n))
         rng.shuffle(reqs)
         return reqs
-    for _ in range(rng.choice([0, 1, 2, 3, 4, 5, 6, 8, 12])):
+    for _ in range(rng.choice([0, 1, 2, 3, 4, 5, 6, 8, 12]) if not safe else rng.choice([3, 4, 5, 6, 8, 10])):
         w = rng.choice(list(nodes))
-        reqs.append((rng.randrange(nrules), w, rng.choice(nodes[w] + [99])))
+        reqs.append((rng.randrange(nrules), w, rng.choice(nodes[w] + ([] if safe else [99]))))
     return reqs
 
 
-def gen_case(rng, big=False, perms=4, local=0.5, extra=""):
+def gen_case(rng, big=False, perms=4, local=0.5, extra="", safe=False):
     g, nodes, edges = gen_graph(rng, big)
-    r = gen_programs(rng, nodes, edges, big=big, local=local)
-    enq = gen_enq(rng, nodes, big=big)
+    r = gen_programs(rng, nodes, edges, big=big, local=local, safe=safe)
+    enq = gen_enq(rng, nodes, big=big, safe=safe)
     e = ";".join(f"{a}.{b}.{c}" for a, b, c in enq) or "-"
     return f"g={g} r={r} enq={e} perms={perms} seed={rng.getrandbits(30)}" + ((" " + extra) if extra else "")
 
